@@ -60,7 +60,9 @@ func factsControl() {
 	if f13 == nil || f14 == nil || f15 == nil {
 		unrec("proposal_wait_lock_free", "bool", "proposePartitionNodesChangeAndWaitForCommit / addPartitionNode / removePartitionNode not found")
 	} else {
-		locky := func(t string) bool { return strings.Contains(t, "Mu.") || strings.Contains(t, ".Lock()") || strings.Contains(t, ".RLock()") }
+		locky := func(t string) bool {
+			return strings.Contains(t, "Mu.") || strings.Contains(t, ".Lock()") || strings.Contains(t, ".RLock()")
+		}
 		known("proposal_wait_lock_free", "bool", b(!locky(pw) && !locky(apn) && !locky(rpn) && strings.Contains(pw, "case err := <-notifC:") && strings.Contains(pw, "this.raft.Propose(ctx, proposalData)")),
 			"proposing a replica change and waiting for it to be applied takes no lock")
 	}
